@@ -5,6 +5,7 @@
 mod util;
 mod tc;
 mod sync;
+mod pr;
 
 fn main() {
     let args: Vec<String> = std::env::args().collect();
@@ -17,6 +18,8 @@ fn main() {
         "tc-walk" => tc::walk(&a),
         "tc-random" => tc::random(&a),
         "tc-sync" => sync::run(&a),
+        "pr-walk" => pr::walk(&a),
+        "pr-hist" => pr::hist(&a),
         other => {
             eprintln!("unknown engine {other}");
             2
